@@ -6,12 +6,12 @@ CONSTANTS
   MainPosFix = TRUE
   CacheFaithful = TRUE
   LastBlockWins = TRUE
-  AppendInPlace = TRUE
+  AppendInPlace = FALSE
   DupBodies = FALSE
   DupBlocks = FALSE
   DepOverlap = FALSE
-  FullPerm = TRUE
-  Inputs <- MC_Perm
+  FullPerm = FALSE
+  Inputs <- MC_Small
 INVARIANT Deterministic
 INVARIANT SiblingOrder
 CHECK_DEADLOCK FALSE
